@@ -856,15 +856,12 @@ static int encode_section( const int16_t *inbuf,
 // Return -1 if error
 int mlw_encode( int16_t *inbuf, int inbuf_size, uint8_t **outbuf, int verbose) {
     int i;
-#ifndef NDEBUG
-    // Range check
+    // Range check (in every build: the tables below are indexed with weight+256)
     for(i=0; i<inbuf_size; i++) {
         if (inbuf[i]<-255 || inbuf[i]>255) {
-            printf("ERROR: weight out of range at index %d, weight value is %d (valid range is -255..255)\n", i, inbuf[i]);
             return -1;
         }
     }
-#endif
 
     int bitbuf_size = inbuf_size*2+1024;
     assert(*outbuf == NULL);
